@@ -266,7 +266,7 @@ META = {
    level_text='Proved in Coq for every sequence of loader operations: every filesystem state seen before the first save equals the initial one (verification, lookups, update, '
               'set_timestamp, reload never write, whether they succeed or fail: C10_no_save_no_write); writing or unlinking a path leaves every other regular file untouched '
               '(C10_write_frame, C10_unlink_frame), and so does saving one Manifest, existing or new (C10_save_manifest_frame); the whole save step (refresh, recompression, rename, unlink) changes only regular files that a '
-              'Manifest path of the loader - as is, with the format suffix appended or cut - named at the beginning (C10_save_writes_manifest_paths_only); a refreshed entry keeps its tag, path and aux name; the single-path API update_entry_for_path keeps the DIST and TIMESTAMP entries of every loaded Manifest, same entries in the same order (C10_single_path_keeps_dist_timestamp), and so does update_entries_for_directory under the default profile, for any prior state, for every loader the library can build (C10_directory_update_keeps_dist_timestamp, C10_loader_wellformed). PARTIAL: for the ebuild profiles, and for IGNORE / out-of-scope entries, the preservation of '
+              'Manifest path of the loader - as is, with the format suffix appended or cut - named at the beginning (C10_save_writes_manifest_paths_only); a refreshed entry keeps its tag, path and aux name; the single-path API update_entry_for_path keeps the DIST and TIMESTAMP entries of every loaded Manifest, same entries in the same order (C10_single_path_keeps_dist_timestamp) and leaves every entry that is not a file entry for that very path untouched, adding at most one (C10_single_path_frame), and so does update_entries_for_directory under the default profile, for any prior state, for every loader the library can build (C10_directory_update_keeps_dist_timestamp, C10_loader_wellformed). PARTIAL: for the ebuild profiles, and for IGNORE / out-of-scope entries, the preservation of '
               'DIST/IGNORE/TIMESTAMP and out-of-scope entries through the whole update are checked on generated trees (content+mtime listings, independent Manifest parser).',
    level_note='About Exec/Tree.v run_op over Model/Update.v; the model does not expose partially completed saves (a failing save is compared up to its error only).'),
  'C12': dict(engine='coq+tree', design_ref='DESIGN.md section 5 C12',
